@@ -50,7 +50,7 @@ RULE = (
     "hex/unicode-digit numbers, unknown or wrong-case aliases, whitespace, quotes/commas/newlines), cell := another "
     "valid value, make column lossless (with or without blanking picture_bytes), matrix/depth edits, row delete / "
     "duplicate / move / shuffle / unknown row / comment out / blank key, column duplicate (same name) / duplicate "
-    "renamed / delete / blank, name edits (duplicate, empty, whitespace), ragged rows; rendered with drawn quoting, "
+    "renamed / delete / blank, name edits (duplicate, empty, whitespace), ragged rows, a cell above the csv field limit; rendered with drawn quoting, "
     "line terminator (LF/CRLF/CR), BOM, missing final newline, unclosed quote. Family 'random': 0..40 rows of cells "
     "drawn from a fragment alphabet. The text goes through a file opened as the CLI opens it. Non-trivial = parses "
     "with >= 2 configurations, or is rejected with a message that names a row the mutation touched; distinct by hash "
@@ -61,14 +61,10 @@ ASSUMPTIONS = [
     "newlines, as vc2-test-case-generator does; texts are valid Unicode (no lone surrogates).",
     "Documented minimums (own table): slices_x, slices_y, picture_bytes, frame size, frame rate, pixel aspect ratio and "
     "excursions >= 1; depths, fragment_slice_count, clean area, offsets >= 0. Quantisation matrix values may be any int.",
-    "Cells are at most 100 000 characters unless OVERSIZE_CELLS is set: a cell above Python's csv field limit "
-    "(131072) raises _csv.Error, reported separately as a suspected defect (sig C28-csv-field-limit).",
+    "Cells of up to 131 123 characters are generated (above Python's csv field limit of 131072, which once leaked "
+    "_csv.Error; regression in regressions/C28/csv-field-limit.json).",
 ]
 
-# A cell longer than the csv module's field limit makes the reader raise _csv.Error.
-# Reported to the harness owner as a suspected genuine defect; generated only when True.
-OVERSIZE_CELLS = False
-OVERSIZE_SIG = "C28-csv-field-limit"
 
 
 def EXHAUSTIVE(tier):
@@ -201,7 +197,7 @@ def own_columns(f):
 # the check, from plain text
 
 
-def check_text(text, col, tmp, data=None, touched=(), oversize=False):
+def check_text(text, col, tmp, data=None, touched=()):
     """Returns (outcome label, nontrivial, detail)."""
     from vc2_conformance.codec_features import read_codec_features_csv, InvalidCodecFeaturesError
 
@@ -219,15 +215,11 @@ def check_text(text, col, tmp, data=None, touched=(), oversize=False):
         msg = str(e)
         kind = ("missing" if msg.startswith("Missing entry") else "invalid" if msg.startswith("Invalid entry") else
                 "duplicate-name" if "more than once" in msg else "unrecognised-row" if msg.startswith("Unrecognised") else
-                "picture_bytes-when-lossless" if "lossless" in msg else "other-message")
+                "picture_bytes-when-lossless" if "lossless" in msg else
+                "malformed-csv" if msg.startswith("Malformed CSV") else "other-message")
         named = any(t and t in msg for t in touched)
         return "error:" + kind, named, msg[:200]
     except Exception as e:
-        if isinstance(e, csv.Error) and "field larger than field limit" in str(e):
-            # only reachable with a cell above the csv module's field limit
-            col.fail("csv-field-limit", data, "read_codec_features_csv raised %s: %s (cell > 131072 characters)"
-                     % (type(e).__name__, e), sig=OVERSIZE_SIG)
-            return "other-exception:csv-field-limit", False, repr(e)
         col.fail(col.crash_bucket(e, "other-exception"), data,
                  "read_codec_features_csv raised %s: %s instead of InvalidCodecFeaturesError" % (type(e).__name__, str(e)[:300]))
         return "other-exception:" + type(e).__name__, False, repr(e)[:200]
@@ -539,7 +531,7 @@ def apply_op(table, op, touched, ops_used):
                     row.append("")
                 row.append(column[row[0].strip()])
     else:
-        if OVERSIZE_CELLS and c % 4 == 0:
+        if c % 8 == 0:  # a cell above the csv module's field limit (131072 characters)
             name = "oversize-cell"
             r = rows[a % len(rows)]
             set_cell(table, r, 1 + b % n, "9" * (131073 + c % 50))
@@ -651,9 +643,11 @@ def run_shard(spec, ctx):
 
 
 def replay(data, col):
+    # data: {"text": str} or, for long repetitive texts, {"text_parts": [[string, repeat count], ...]}
+    text = data["text"] if "text" in data else "".join(s * int(n) for s, n in data["text_parts"])
     tmp = tempfile.mkdtemp(prefix="vpbt-c28-replay-", dir="/tmp")
     try:
-        check_text(data["text"], col, tmp, data=data)
+        check_text(text, col, tmp, data=data)
         col.evaluations += 1
     finally:
         shutil.rmtree(tmp, ignore_errors=True)
